@@ -369,10 +369,15 @@ def match_known(pid, key):
 
 # ------------------------------------------------------------------ reporting ------------------
 
+_current_report = None
+
+
 class Report:
     """Collects the outcome of one check run and writes evidence."""
 
     def __init__(self, pid, tier):
+        global _current_report
+        _current_report = self
         self.pid = pid
         self.tier = tier
         self.t0 = time.time()
@@ -479,6 +484,13 @@ def dv(args, input=None, timeout=3600, env=None, check=True):
     exe = build_harness()
     p = sh([exe] + args, input=input, timeout=timeout, env=env)
     if check and p.returncode != 0:
+        died_in_code_under_test = (p.returncode < 0 or p.returncode in (101, 134, 139)) and "harness error" not in p.stderr
+        if died_in_code_under_test and _current_report is not None:
+            # the harness runs the code under test in-process: a process killed by an abort, a failed UB check or an
+            # uncaught panic there is an observation about the implementation, not a tool failure
+            _current_report.violation({"leg": "harness:" + args[0], "what": "harness process died inside the code under test",
+                                       "signal": p.returncode},
+                                      {"args": args, "stderr": p.stderr[-4000:], "stdout_tail": p.stdout[-800:]})
         raise ToolError("dv %s failed rc=%d\n%s\n%s" % (args[:2], p.returncode, p.stdout[-2000:], p.stderr[-4000:]))
     return p
 
